@@ -41,6 +41,8 @@ def find_consumers(repo):
         for lp in flow.stmts_of(fn, ast.For):
             it = lp.iter
             base = it.func.value if isinstance(it, ast.Call) and call_name(it) in ("items", "keys") else it
+            if isinstance(base, ast.Name):
+                base = flow._single_def(fn, base.id) or base
             if not (isinstance(base, ast.Attribute) and base.attr == "decomposition_dict"):
                 continue
             if isinstance(lp.target, ast.Tuple) and len(lp.target.elts) == 2:
@@ -51,27 +53,30 @@ def find_consumers(repo):
                 continue
             # locals bound to type(key) before the dispatch
             aliases = set()
-            disp = None
             for st0 in lp.body:
                 if isinstance(st0, ast.Assign) and isinstance(st0.targets[0], ast.Name) and isinstance(st0.value, ast.Call) and call_name(st0.value) == "type" \
                         and st0.value.args and dotted(st0.value.args[0]) == key:
                     aliases.add(st0.targets[0].id)
-                    continue
-                if isinstance(st0, ast.If):
-                    disp = st0
-                break
-            if disp is None:
+            tests = [n.test for n in ast.walk(ast.Module(body=lp.body, type_ignores=[])) if isinstance(n, ast.If)]
+            if not any(_key_kind(x, key, aliases) for t in tests for x in ast.walk(t)):
                 continue
-            arms, orelse = flow.closed_chain(disp)
+            from ..absint import bool_decider
             kinds = {}
-            for t, body in arms:
-                k = _key_kind(t, key, aliases)
-                if k:
-                    kinds[k] = body
+            closed = False
+            for K in ("leaf", "pair", "const", "other"):
+                def atom(t, K=K):
+                    k = _key_kind(t, key, aliases)
+                    return None if k is None else (k == K)
+                body, term = flow.specialise(lp.body, bool_decider(atom))
+                body = [x for x in body if not (isinstance(x, ast.Assign) and isinstance(x.targets[0], ast.Name) and x.targets[0].id in aliases)]
+                if K == "other":
+                    closed = flow.always_raises(body)
+                elif not flow.always_raises(body):
+                    kinds[K] = body or [ast.Pass()]
             if not kinds:
                 continue
             c = Consumer()
-            c.fn, c.loop, c.key, c.weight, c.kinds, c.orelse, c.arms = fn, lp, key, weight, kinds, orelse, arms
+            c.fn, c.loop, c.key, c.weight, c.kinds, c.closed = fn, lp, key, weight, kinds, closed
             c.owner = dotted(base.value)
             out.append(c)
     return out
@@ -85,10 +90,10 @@ def r_keykinds(ctx):
         ctx.unit(name)
         key = "%s::%s" % (c.fn._module.rel, name)
         missing = {"leaf", "pair", "const"} - set(c.kinds)
-        ctx.ob("R-KEYKINDS", key + "::three kinds", not missing and len(c.arms) == 3,
-               "dispatches on leaf expression / pair of points / constant" if not missing and len(c.arms) == 3 else
-               "dispatch arms %d, missing kinds %s" % (len(c.arms), sorted(missing)), loc(c.fn, c.loop))
-        closed = bool(c.orelse) and flow.always_raises(c.orelse)
+        ctx.ob("R-KEYKINDS", key + "::three kinds", not missing,
+               "dispatches on leaf expression / pair of points / constant" if not missing else
+               "keys of kind %s raise instead of being handled" % sorted(missing), loc(c.fn, c.loop))
+        closed = c.closed
         ctx.ob("R-KEYKINDS", key + "::closed", closed, "any other key raises" if closed else "a key of another kind is silently ignored", loc(c.fn, c.loop))
         # leaf: addressed by the key's own index; pair: by the two points' own indices
         if "leaf" in c.kinds:
@@ -380,8 +385,23 @@ def r_leafreg(ctx):
     if okc:
         conds = flow.conditions_guarding(clip[0])
         okc = all(not _mentions_verbose(t) for t, _, _ in conds)
+        # the only admissible guard is "some eigenvalue is negative" (clipping is a no-op otherwise)
+        ev = clip[0].value.args[0].id
+        for t, br, _ in conds:
+            neg = None
+            if isinstance(t, ast.Compare) and len(t.ops) == 1 and is_const(t.comparators[0]) and t.comparators[0].value == 0:
+                l = t.left
+                if isinstance(l, ast.Name):
+                    l = flow._single_def(fn, l.id) or l
+                is_min = isinstance(l, ast.Call) and call_name(l) in ("min", "amin") and l.args and dotted(l.args[0]) == ev
+                if is_min and isinstance(t.ops[0], (ast.Lt, ast.LtE)):
+                    neg = True
+                elif is_min and isinstance(t.ops[0], (ast.GtE, ast.Gt)):
+                    neg = False
+            if neg is None or neg != br:
+                okc = False
     ctx.ob("R-LEAFREG", "PEP.%s::negative eigenvalues clipped" % fn.name, okc,
-           "negative eigenvalues are clipped to 0 whatever the verbosity" if okc else "eigenvalue clipping missing or under a verbosity guard", loc(fn, fn))
+           "negative eigenvalues are clipped to 0 whatever the verbosity" if okc else "eigenvalue clipping missing, under a verbosity guard, or not executed when an eigenvalue is negative (the square root then yields NaN coordinates)", loc(fn, fn))
 
 
 def _mentions_verbose(test):
@@ -511,8 +531,14 @@ def _sparse_run(body, p1, p2, cs, gi, gj, gv, c1, c2, mirrored, triplets=None):
     env = {cs.weight: w, p1: ("point", 1), p2: ("point", 2)}
     out = {"i": [], "j": [], "v": []}
 
+    dict_aliases = {owner + ".decomposition_dict"}
+    for s0 in flow.stmts_of(cs.fn, ast.Assign):
+        if len(s0.targets) == 1 and isinstance(s0.targets[0], ast.Name) and dotted(s0.value) == owner + ".decomposition_dict" \
+                and flow._single_def(cs.fn, s0.targets[0].id) is not None:
+            dict_aliases.add(s0.targets[0].id)
+
     def is_dict(e):
-        return dotted(e) == owner + ".decomposition_dict"
+        return dotted(e) in dict_aliases
 
     def key_of(e):
         """'mirror' for (p2, p1), 'own' for (p1, p2) / the loop key -- through local aliases"""
